@@ -75,7 +75,7 @@ static void poly_build_anchors(void) {
 }
 
 // ---- shapes: templates in units of the cell edge (x = east, y = north), irrational-ish offsets
-#define POLY_NSHAPES 11
+#define POLY_NSHAPES 13
 static const double PT[][8][2] = {
     {{-1.31, -1.07}, {1.43, -0.93}, {0.11, 1.77}},                                                      // 0 triangle
     {{-2.13, -2.21}, {2.37, -2.09}, {2.19, 2.33}, {-2.41, 2.07}},                                       // 1 quadrilateral
@@ -90,6 +90,8 @@ static const double PH[][4][2] = {
     {{-0.9, -0.8}, {-1.0, 0.9}, {0.8, 1.0}, {0.9, -0.7}},     // central hole
     {{-1.9, -1.8}, {-1.95, -1.1}, {-1.2, -1.05}, {-1.1, -1.85}},  // second hole, lower left
     {{-0.11, -0.09}, {-0.12, 0.1}, {0.1, 0.12}, {0.09, -0.1}},  // hole smaller than a cell
+    {{-0.95, -0.85}, {0.85, 0.95}, {0.95, 0.85}, {-0.85, -0.95}},  // 3 thin diagonal sliver: its bounding box is the whole square
+    {{0.4, -0.7}, {0.4, -0.4}, {0.7, -0.4}, {0.7, -0.7}},          // 4 small square inside the sliver's bounding box but outside the sliver
 };
 // shape id -> (outer template, holes[], hole scale)
 static const struct {
@@ -102,6 +104,8 @@ static const struct {
     {3, 2, {0, 1}, 2.0},  // 8 7-gon + two holes
     {1, 1, {2, 0}, 1.0},  // 9 quad + hole smaller than a cell
     {3, 1, {2, 0}, 1.0},  // 10 7-gon + hole smaller than a cell
+    {1, 2, {3, 4}, 2.0},  // 11 quad + diagonal sliver hole + small hole inside the sliver's bounding box (hole order: sliver first)
+    {1, 2, {4, 3}, 2.0},  // 12 the same two holes in the other order
 };
 static const double PSCALE[4] = {0.37, 1.0, 2.7, 9.0};
 // cell-derived shapes (C15): shape POLY_NSHAPES+k = a small quadrilateral sitting on corner k (0..5) of the cell that contains the anchor at
